@@ -7,7 +7,8 @@ from .. import gen, putcheck, run, snap, spec, trashgen, trashio, world
 ID = 'C06'
 
 DEST = ['none', 'file', 'dir_empty', 'tree', 'link_file', 'link_dir',
-        'link_dangling', 'none', 'fifo', 'socket', 'chardev', 'link_self']
+        'link_dangling', 'none', 'fifo', 'socket', 'chardev', 'link_self',
+        'hardlink_to_payload', 'link_to_payload']
 
 
 def config(tier):
@@ -99,6 +100,16 @@ def gen_case(rng, index, tier):
             L.add({'p': loc, 't': 'l', 'to': '@/' + D + '/tgtd-' + dtag})
         elif dest == 'link_dangling':
             L.add({'p': loc, 't': 'l', 'to': 'nothing-' + dtag})
+        elif dest == 'hardlink_to_payload':
+            # the destination is another name of the trashed file itself
+            pay = '%s/files/n%d' % (tdir, i)
+            if e['kind'] in ('file', 'empty'):
+                L.add({'p': loc, 't': 'h', 'to': pay})
+            else:
+                L.add({'p': loc, 't': 'l', 'to': '@/' + pay})
+                e['dest'] = dest = 'link_to_payload'
+        elif dest == 'link_to_payload':
+            L.add({'p': loc, 't': 'l', 'to': '@/%s/files/n%d' % (tdir, i)})
         elif dest == 'link_self':
             L.add({'p': loc, 't': 'l', 'to': os.path.basename(loc)})
         elif dest in ('fifo', 'socket', 'chardev'):
@@ -112,6 +123,12 @@ def gen_case(rng, index, tier):
     if len(set(locs)) != len(locs):
         # two entries for one path: what --overwrite does among them is not
         # specified; the refusal without --overwrite is
+        case['overwrite'] = False
+    if any(e.get('dest') == 'hardlink_to_payload' for e in entries):
+        # rename(2) between two names of one inode is a no-op: with
+        # --overwrite the destination "is replaced" trivially while the name
+        # in files/ stays (noted in DESIGN.md); the kind is here for the
+        # refusal without --overwrite
         case['overwrite'] = False
     case['sort'] = rng.choice([None, 'date', 'path'])
     sel = rng.choice(['one', 'one', 'all-range', 'all-list', 'rev-list'])
